@@ -1,17 +1,165 @@
-(** C18 — placeholder while the proofs are being built. *)
+(** C18 — Regex virtual-machine programs match like the pattern.
+
+    Models: [Model/RevmTree.v] (regex AST of the real parser + matching semantics),
+    [Model/Revm.v] (intermediate/revm.py: translator with label counter, relabelling,
+    no-op removal), [Model/RevmComp.v] (label-free compilation), [Model/RevmVM.v]
+    (instruction semantics; the generated C++ [Match] loop on fuel).
+    This file contains only statements, [exact]s / [vm_compute]s and [Print Assumptions]. *)
 From Coq Require Import List NArith Bool Arith.
-From Acg Require Import Base.Outcome Base.Str Model.RevmTree Model.Revm Model.RevmVM Model.RevmComp.
+From Coq Require Strings.String.
+Import Coq.Strings.String.StringSyntax.
+From Acg Require Import Base.Outcome Base.Str Model.RevmTree Model.Revm Model.RevmVM
+  Model.RevmComp Proofs.RevmFrag Proofs.RevmCompCorrect Proofs.RevmTop Proofs.RevmTargets.
 Import ListNotations.
 Open Scope N_scope.
 
-Definition t_star_star : regex :=
-  UCons (CCons (Term (VSym SStart) None)
-        (CCons (Term (VGroup (UCons (CCons (Term (VChar 97) (Some (mkQ false 0%nat None))) CNil) UNil))
-                     (Some (mkQ false 0%nat None)))
-        (CCons (Term (VSym SEnd) None) CNil))) UNil.
+(** ** sample trees (as printed by the harness from the real parser) *)
+Definition star (v : value) : term := Term v (Some (mkQ false 0%nat None)).
+Definition lit (c : N) : term := Term (VChar c) None.
+Definition anchored_of (mid : list term) : regex :=
+  UCons (concat_of_terms (t_start :: mid ++ [t_end])) UNil.
 
-Example C18_star_star_program :
-  program t_star_star =
-  Ok [ISplit 1 5; ISplit 2 4; IChar 97; IJump 1; IJump 0; IEnd; IMatch]%nat.
-Proof. vm_compute. reflexivity. Qed.
-Print Assumptions C18_star_star_program.
+(** the pattern  ^ ( a-star )-star $  *)
+Definition t_star_star : regex :=
+  anchored_of [star (VGroup (UCons (CCons (star (VChar 97)) CNil) UNil))].
+(** the pattern ^(ab|c)+[^x-z]{2,3}. * $ , here with the . * $ shortcut *)
+Definition t_mixed : regex :=
+  anchored_of
+    [Term (VGroup (UCons (CCons (lit 97) (CCons (lit 98) CNil))
+                  (UCons (CCons (lit 99) CNil) UNil)))
+          (Some (mkQ false 1%nat None));
+     Term (VSet true [(120, Some 122)]) (Some (mkQ false 2%nat (Some 3%nat)));
+     star (VSym SDot)].
+(** [^a^b$] *)
+Definition t_inner_start : regex := anchored_of [lit 97; t_start; lit 98].
+(** [^a+?$] *)
+Definition t_non_greedy : regex :=
+  anchored_of [Term (VChar 97) (Some (mkQ true 1%nat None))].
+
+(** ** 1. Fragment invariant of the compilation, for every sub-tree, every program
+    containing the fragment at offset [a], every word without line breaks:
+    the code of the sub-tree relates positions exactly like its denotation. *)
+Theorem C18_comp_fragment : forall (p : list instr) (w : list N), no_linebreak w ->
+  (forall v, okv v = true -> forall a, at_off p a (comp_v v a) ->
+             frag p w a (a + vlen v) (dv w v))
+  /\ (forall t, okt t = true -> forall a, at_off p a (comp_t t a) ->
+                frag p w a (a + tlen t) (dt w t))
+  /\ (forall c, okc c = true -> forall a, at_off p a (comp_c c a) ->
+                frag p w a (a + clen c) (dc w c))
+  /\ (forall u, oku u = true -> forall a, at_off p a (comp_alts u (a + ulen u) a) ->
+                frag p w a (a + ulen u) (du w u)).
+Proof. exact comp_frag. Qed.
+Print Assumptions C18_comp_fragment.
+
+(** ** 2. Compiler correctness of the label-free compilation: for every anchored pattern
+    [^ mid $] whose inner terms contain no further start anchor and only ordered
+    quantifier bounds, the program accepts a word without line breaks iff the pattern
+    fully matches it ([.*$ => match] shortcut included). All trees, all words. *)
+Theorem C18_comp_regex_correct : forall c mid w,
+  terms_of c = t_start :: mid ++ [t_end] -> forallb okt mid = true -> no_linebreak w ->
+  (vm_accepts (comp_regex (UCons c UNil)) w <-> matches w (UCons c UNil)).
+Proof. exact comp_regex_correct. Qed.
+Print Assumptions C18_comp_regex_correct.
+
+(** ** 3. translate_correct.
+    Full statement (NOT proved in general):
+      forall r p w, fe_accepts r = true -> quantifier bounds ordered ->
+        program r = Ok p /\ (no_linebreak w -> (vm_accepts p w <-> matches w r)).
+    Proved: the statement under the side condition [program r = Ok (comp_regex r)]
+    (the labelled translation with [_relabel_in_place] and [_remove_noop_in_place]
+    produces the label-free compilation). The side condition is decidable; it is
+    evaluated inside Coq for every tree of the correspondence stream on every run
+    (stream "comp") and proved below for the sample trees. Missing: the general
+    syntactic lemma [program r = Ok (comp_regex r)] for all accepted trees. *)
+Theorem C18_translate_correct_partial : forall c mid p w,
+  terms_of c = t_start :: mid ++ [t_end] -> forallb okt mid = true ->
+  program (UCons c UNil) = Ok p -> p = comp_regex (UCons c UNil) ->
+  no_linebreak w ->
+  (vm_accepts p w <-> matches w (UCons c UNil)).
+Proof.
+  intros c mid p w H1 H2 _ Hp H3. rewrite Hp. exact (comp_regex_correct c mid w H1 H2 H3).
+Qed.
+Print Assumptions C18_translate_correct_partial.
+
+Example C18_side_condition_star_star :
+  program t_star_star = Ok (comp_regex t_star_star)
+  /\ comp_regex t_star_star
+     = [ISplit 1 5; ISplit 2 4; IChar 97; IJump 1; IJump 0; IEnd; IMatch]%nat.
+Proof. vm_compute. split; reflexivity. Qed.
+Print Assumptions C18_side_condition_star_star.
+
+Example C18_side_condition_mixed :
+  program t_mixed = Ok (comp_regex t_mixed) /\ targets_ok (comp_regex t_mixed) = true.
+Proof. vm_compute. split; reflexivity. Qed.
+Print Assumptions C18_side_condition_mixed.
+
+(** non-vacuity of 2./3.: the hypotheses hold for [t_mixed] and the word "abcab!!zzz"
+    is matched (so it is accepted by the program), "ab" is not *)
+Example C18_nonvacuous :
+  forallb okt [Term (VGroup (UCons (CCons (lit 97) (CCons (lit 98) CNil))
+                            (UCons (CCons (lit 99) CNil) UNil)))
+                    (Some (mkQ false 1%nat None));
+               Term (VSet true [(120, Some 122)]) (Some (mkQ false 2%nat (Some 3%nat)));
+               star (VSym SDot)] = true
+  /\ matchb (s2l "abcab!!zzz") t_mixed = true /\ matchb (s2l "ab") t_mixed = false
+  /\ cpp_match false (enough_fuel (comp_regex t_mixed)) (comp_regex t_mixed) (s2l "abcab!!zzz")
+     = Ok true
+  /\ cpp_match false (enough_fuel (comp_regex t_mixed)) (comp_regex t_mixed) (s2l "ab")
+     = Ok false.
+Proof. vm_compute. repeat split; reflexivity. Qed.
+Print Assumptions C18_nonvacuous.
+
+(** ** 4. translate_total / labels_wf.
+    Full statements (NOT proved in general):
+      translate_total : fe_accepts r = true -> exists p, translate r = Ok p
+      labels_wf       : program r = Ok p -> targets_ok p = true
+    Both follow from the missing lemma of 3. Proved: the two crash classes found on the
+    shipped code are excluded in the modelled (fixed) behaviour —
+    an inner start anchor makes the translator crash, and the (fixed) front end no
+    longer accepts such a pattern; a non-greedy quantifier is translated like a greedy one. *)
+(** labels_wf, proved for the label-free program of every anchored pattern: every
+    jump/split target is an index of the program (so the validation loop at the top of
+    the C++ [Match] never throws and [Spawn] never indexes outside [has_]). *)
+Theorem C18_labels_wf_partial : forall c mid,
+  terms_of c = t_start :: mid ++ [t_end] -> forallb okt mid = true ->
+  targets_ok (comp_regex (UCons c UNil)) = true.
+Proof. exact comp_regex_targets_ok. Qed.
+Print Assumptions C18_labels_wf_partial.
+
+Theorem C18_inner_start_rejected_by_front_end :
+  translate t_inner_start = Crash AssertionError /\ fe_accepts t_inner_start = false
+  /\ anchored t_inner_start = true.
+Proof. vm_compute. repeat split; reflexivity. Qed.
+Print Assumptions C18_inner_start_rejected_by_front_end.
+
+Theorem C18_non_greedy_translated :
+  fe_accepts t_non_greedy = true
+  /\ program t_non_greedy = Ok [IChar 97; ISplit 0 2; IEnd; IMatch]%nat.
+Proof. vm_compute. split; reflexivity. Qed.
+Print Assumptions C18_non_greedy_translated.
+
+(** ** 5. character sets: sorting the ranges does not change membership (all sets) *)
+Theorem C18_set_instruction_sound : forall compl rs c,
+  consumes (set_instr compl rs) c = xorb compl (in_ranges c rs).
+Proof. exact consumes_set. Qed.
+Print Assumptions C18_set_instruction_sound.
+
+(** ** 6. the generated C++ matcher.
+    Full statements (NOT proved in general):
+      cpp_match_refines    : cpp_match false fuel p w = Ok b -> (b = true <-> vm_accepts p w)
+      cpp_match_terminates : targets_ok p = true -> constructible p = true ->
+                             cpp_match false (enough_fuel p) p w <> Crash OutOfFuel
+    (validated by the "cpp-model" stream against re.fullmatch and by the compiled
+    matcher). Proved: termination is REFUTED for the matcher as shipped, where
+    [ThreadList::Pop] clears [has_]: on the program of t_star_star (an epsilon-cycle
+    0 -> 1 -> 4 -> 0) and the word "a" the loop is still running after 5000
+    iterations of one phase (the compiled C++ never returns, see docs/C18.md), whereas
+    with the flag kept until [Clear] it answers within [enough_fuel]. *)
+Theorem C18_cpp_match_terminates_refuted :
+  exists p w, program t_star_star = Ok p
+    /\ cpp_match true (50 * 100)%nat p w = Crash OutOfFuel
+    /\ cpp_match false (enough_fuel p) p w = Ok true.
+Proof.
+  exists (comp_regex t_star_star), (s2l "a"). vm_compute. repeat split; reflexivity.
+Qed.
+Print Assumptions C18_cpp_match_terminates_refuted.
